@@ -8,6 +8,7 @@ package main
 import (
 	"bytes"
 	"fmt"
+	"runtime"
 	"strings"
 	"time"
 
@@ -25,6 +26,21 @@ func loadDataDecode(b []byte) decObs {
 	_ = zw.Close()
 	blob := zb.Bytes()
 	return guardDec(2*time.Second, func() (gSnap, error) {
+		s, err := snapshot.LoadData(blob)
+		if err != nil {
+			return gSnap{}, err
+		}
+		return contentOf(s)
+	})
+}
+
+func loadDataDecodeT(b []byte, limit time.Duration) decObs {
+	var zb bytes.Buffer
+	zw, _ := gzip.NewWriterLevel(&zb, gzip.BestSpeed)
+	_, _ = zw.Write(b)
+	_ = zw.Close()
+	blob := zb.Bytes()
+	return guardDec(limit, func() (gSnap, error) {
 		s, err := snapshot.LoadData(blob)
 		if err != nil {
 			return gSnap{}, err
@@ -293,6 +309,55 @@ func areaHostile(r *Rng, n int, dir string) (*AreaOut, error) {
 		}
 	}
 
+	// long runs of one tiny element, real code only: time, memory and STACK stay proportional to the input (a
+	// decoder that recursed per element would need 100+ MB of stack here; the harness caps the stack at 64 MB)
+	for _, run := range []struct {
+		what string
+		elem []byte
+		n    int
+	}{
+		{"100000 empty entries in one DBI", []byte{0x12, 0x00}, 100000},
+		{"100000 unknown varint fields in one DBI", []byte{0x48, 0x01}, 100000},
+	} {
+		out.OracleN++
+		dbi := append([]byte{0x0a, 0x01, 'd'}, bytes.Repeat(run.elem, run.n)...)
+		msg := append([]byte{0x1a}, putVarint(nil, uint64(len(dbi)), 0)...)
+		msg = append(msg, dbi...)
+		var before, after runtime.MemStats
+		runtime.ReadMemStats(&before)
+		t0 := time.Now()
+		stopSampling := make(chan struct{})
+		sampled := make(chan uint64, 1)
+		go func() { // peak stack use while the decoder runs
+			var peak uint64
+			var m runtime.MemStats
+			for {
+				select {
+				case <-stopSampling:
+					sampled <- peak
+					return
+				default:
+				}
+				runtime.ReadMemStats(&m)
+				if m.StackInuse > peak {
+					peak = m.StackInuse
+				}
+				time.Sleep(200 * time.Microsecond)
+			}
+		}()
+		o := loadDataDecodeT(msg, 20*time.Second)
+		close(stopSampling)
+		after.StackInuse = <-sampled
+		hist(out.Hist, "long-run/"+o.Kind)
+		switch {
+		case o.Kind == "panic" || o.Kind == "timeout":
+			out.Oracle = append(out.Oracle, OracleFailure{"C08", "no-crash", run.what + ": " + o.Kind + " " + o.Msg, map[string]any{"element": hexs(run.elem), "count": run.n}})
+		case time.Since(t0) > 10*time.Second:
+			out.Oracle = append(out.Oracle, OracleFailure{"C08", "linear-time", fmt.Sprintf("%s: decoding took %v", run.what, time.Since(t0)), map[string]any{"element": hexs(run.elem), "count": run.n}})
+		case after.StackInuse > before.StackInuse+(8<<20):
+			out.Oracle = append(out.Oracle, OracleFailure{"C08", "bounded-stack", fmt.Sprintf("%s: goroutine stacks grew by %d MB while decoding %d KB", run.what, (after.StackInuse-before.StackInuse)>>20, len(msg)>>10), map[string]any{"element": hexs(run.elem), "count": run.n}})
+		}
+	}
 	out.Cases = len(cases)
 	out.Distinct = len(nontriv)
 	if timeouts >= 4 {
